@@ -11,6 +11,7 @@ package state
 //@ ghost func Indexed(k signature.PublicKey, id signature.PublicKey) bool { return kvHas(SubKey(k)) && kvVal(SubKey(k)) == IdBytes(id) }
 
 //@ func MutableState.SetNode
+//@   modifies kvState()
 //@   props C17
 //@   requires node != nil && (existingNode == nil || existingNode.ID == node.ID)
 //@   ensures err != nil ==> unavail(err)
@@ -21,9 +22,52 @@ package state
 //@   note from the property: every registered node is found under each of its current keys; keys it no longer uses are released; nobody else's keys are touched
 
 //@ func MutableState.RemoveNode
+//@   modifies kvState()
 //@   props C17
 //@   requires node != nil
 //@   ensures err != nil ==> unavail(err)
 //@   ensures err == nil ==> !kvHas(SubKey(node.Consensus.ID)) && !kvHas(SubKey(node.P2P.ID)) && !kvHas(SubKey(node.VRF.ID)) && !kvHas(SubKey(node.TLS.PubKey))
 //@   ensures err == nil ==> !kvHas(keyOf(signedNodeKeyFmt, node.ID)) && !kvHas(keyOf(nodeStatusKeyFmt, node.ID)) && !kvHas(keyOf(signedNodeByEntityKeyFmt, node.EntityID, node.ID))
 //@   ensures err == nil ==> (forall k signature.PublicKey :: k != node.Consensus.ID && k != node.P2P.ID && k != node.VRF.ID && k != node.TLS.PubKey ==> kvHas(SubKey(k)) == old(kvHas(SubKey(k))))
+
+// ---- entities ----
+
+//@ ghost func EntityKey(id signature.PublicKey) int { return keyOf(signedEntityKeyFmt, id) }
+
+//@ func MutableState.SetEntity
+//@   modifies kvState()
+//@   props C17 C08
+//@   requires ent != nil
+//@   ensures err != nil ==> unavail(err)
+//@   ensures err == nil ==> kvHas(EntityKey(ent.ID)) && kvWrites() > old(kvWrites())
+//@   ensures err == nil ==> (forall k int :: k != EntityKey(ent.ID) ==> kvHas(k) == old(kvHas(k)) && kvVal(k) == old(kvVal(k)))
+
+//@ func MutableState.RemoveEntity
+//@   modifies kvState()
+//@   props C17 C08
+//@   ensures err != nil && err != registry.ErrNoSuchEntity ==> unavail(err)
+//@   ensures err == registry.ErrNoSuchEntity ==> !old(kvHas(EntityKey(id))) && !kvHas(EntityKey(id)) && kvVal(EntityKey(id)) == old(kvVal(EntityKey(id)))
+//@   ensures err == nil ==> old(kvHas(EntityKey(id))) && !kvHas(EntityKey(id))
+//@   ensures (err == nil || err == registry.ErrNoSuchEntity) ==> (forall k int :: k != EntityKey(id) ==> kvHas(k) == old(kvHas(k)) && kvVal(k) == old(kvVal(k)))
+
+//@ func ImmutableState.ConsensusParameters
+//@   props C08 C17
+//@   modifies nothing
+//@   ensures kvWrites() == old(kvWrites())
+//@   ensures forall k int :: kvHas(k) == old(kvHas(k)) && kvVal(k) == old(kvVal(k))
+
+//@ ghost func OwnsNodes(id signature.PublicKey) bool { return ufb("entityOwnsNodes", id, kvDomain()) }
+//@ ghost func OwnsRuntimes(id signature.PublicKey) bool { return ufb("entityOwnsRuntimes", id, kvDomain()) }
+
+//@ func ImmutableState.HasEntityNodes
+//@   trusted
+//@   modifies nothing
+//@   ensures err == nil ==> result0 == OwnsNodes(id)
+//@   note a function of the by-entity node index, i.e. of the set of keys in the tree
+//@   ensures err != nil ==> unavail(err)
+
+//@ func ImmutableState.HasEntityRuntimes
+//@   trusted
+//@   modifies nothing
+//@   ensures err == nil ==> result0 == OwnsRuntimes(id)
+//@   ensures err != nil ==> unavail(err)
